@@ -49,8 +49,8 @@ def fz(v):
         if a is not None and a[0] == 'S':
             return a[1]
         return v
-    if isinstance(v, AT) and v.axes == ():
-        return fz(v.data[()])
+    if isinstance(v, AT):
+        return alg.at_key(v)
     if isinstance(v, (bool, np.bool_)):
         return bool(v)
     if isinstance(v, (np.integer,)):
@@ -451,6 +451,14 @@ class VMapped:
         uniq = sorted(set(names))
         if len(uniq) == 0:
             raise Finding("vmap must have at least one non-None value in in_axes")
+        if len(uniq) == 2:
+            # rows built as repeat(A, |B|) and tile(B, |A|) are the two columns of the product A x B
+            pa = [alg._parse_rep(n) for n in uniq]
+            if all(pa) and {pa[0][0], pa[1][0]} == {'Rep', 'Tile'}:
+                rep = pa[0] if pa[0][0] == 'Rep' else pa[1]
+                til = pa[1] if pa[0][0] == 'Rep' else pa[0]
+                if til == ('Tile', rep[2], rep[1]):
+                    uniq = [f"Prod({rep[1]},{rep[2]})"]
         if len(uniq) != 1:
             raise Finding(f"vmapped inputs disagree on the mapped row axis: {uniq}")
         name = uniq[0]
@@ -654,7 +662,12 @@ def eqx_field(**kw):
 
 
 def eqx_tree_at(where, pytree_, replace=None, replace_fn=None, is_leaf=None):
-    sel = where(PathProxy())
+    try:
+        sel = where(PathProxy())
+    except (Top, Finding):
+        raise
+    except Exception:
+        sel = None
     if replace_fn is not None:
         raise Top("tree_at with replace_fn")
     if isinstance(sel, PathProxy):
@@ -668,7 +681,7 @@ def eqx_tree_at(where, pytree_, replace=None, replace_fn=None, is_leaf=None):
         if len(reps) != len(sels):
             raise Finding(f"tree_at: {len(sels)} selected nodes but {len(reps)} replacements")
     else:
-        raise Top("tree_at selector outside the modelled vocabulary")
+        return _tree_at_by_identity(where, pytree_, replace, is_leaf)
     out = pytree_
     seen = set()
     for s, r in zip(sels, reps):
@@ -686,9 +699,107 @@ def eqx_tree_at(where, pytree_, replace=None, replace_fn=None, is_leaf=None):
     return out
 
 
+def _tree_at_by_identity(where, tree, replace, is_leaf):
+    """selector that returns nodes of the actual tree (e.g. a list of its leaves): locate them by identity"""
+    try:
+        nodes = where(tree)
+    except Exception as ex:
+        raise Top(f"tree_at selector outside the modelled vocabulary ({ex})")
+    single = not isinstance(nodes, (list, tuple))
+    nodes = [nodes] if single else list(nodes)
+    reps = [replace] if single else list(replace)
+    if len(nodes) != len(reps):
+        raise Finding(f"tree_at: {len(nodes)} selected nodes but {len(reps)} replacements")
+    paths = {}
+
+    def rec(x, path):
+        for i, n in enumerate(nodes):
+            if x is n and i not in paths:
+                paths[i] = path
+        k = pytree.node_kind(x)
+        if k in (None, 'none') or isinstance(x, OpaqueNode):
+            return
+        for key, c in pytree.children(x):
+            rec(c, path + ((('attr' if k == 'inst' else 'item'), key),))
+    rec(tree, ())
+    if len(paths) != len(nodes):
+        raise Top("tree_at: selected nodes not found in the tree")
+    out = tree
+    for i, r in enumerate(reps):
+        out = set_path(out, paths[i], r)
+    return out
+
+
 # --------------------------------------------------------------------------------------
 # misc stubs
 # --------------------------------------------------------------------------------------
+class ModelToken(OpaqueNode):
+    """eqx.combine(params, static): an opaque callable module; calling it on an input tensor x of m_out outputs gives
+    a vector of opaque entries net(params, static, x)[k] (the number of outputs is taken from the static part when it
+    declares one, else 1)"""
+    _abstract_attrs = True
+
+    def __init__(self, trees):
+        self.trees = tuple(trees)
+
+    def n_out(self):
+        for t in self.trees:
+            if isinstance(t, OpaqueObj) and 'n_out' in t._attrs:
+                return t._attrs['n_out']
+        return 1
+
+    def __call__(self, *args, **kw):
+        m = self.n_out()
+        a = tuple(fz(t) for t in self.trees) + tuple(fz(x) for x in args) + tuple(sorted(((k, fz(v)) for k, v in kw.items()), key=repr))
+        return AT((m,), np.array([Poly.atom(('S', Sym('net', k, *a))) for k in range(m)], dtype=object))
+
+    def __repr__(self):
+        return f"<model {self.trees}>"
+
+
+def _split_model(a, indices, axis=0):
+    if isinstance(a, AT) and len(a.axes) == 1 and isinstance(a.axes[0], int):
+        idx = [int(_dim(i)) for i in (indices if not isinstance(indices, AT) else indices.entries())]
+        bounds = [0] + idx + [a.axes[0]]
+        return [a[bounds[i]:bounds[i + 1]] for i in range(len(bounds) - 1)]
+    return term('split_array', a, indices)
+
+
+def _einsum_model(spec, *ops, **kw):
+    """einsum over concrete tensors of polynomials (small sizes): explicit sum over index assignments"""
+    if not isinstance(spec, str) or not all(isinstance(o, AT) and all(isinstance(x, int) for x in o.axes) for o in ops):
+        return term('einsum', spec, *ops)
+    lhs, rhs = [x.strip() for x in spec.split('->')]
+    ins = [x.strip() for x in lhs.split(',')]
+    if len(ins) != len(ops):
+        raise Finding(f"einsum: {len(ins)} operand specifications for {len(ops)} operands in {spec!r}")
+    sizes = {}
+    for sub, o in zip(ins, ops):
+        if len(sub) != len(o.axes):
+            raise Finding(f"einsum: operand with axes {o.axes} does not match subscripts {sub!r}")
+        for ch, n in zip(sub, o.axes):
+            if sizes.setdefault(ch, n) != n:
+                raise Finding(f"einsum: inconsistent size for index {ch!r} in {spec!r}")
+    for ch in rhs:
+        if ch not in sizes:
+            raise Finding(f"einsum: output index {ch!r} not among the inputs in {spec!r}")
+    contracted = [ch for ch in sizes if ch not in rhs]
+    out_shape = tuple(sizes[ch] for ch in rhs)
+    out = np.empty(out_shape, dtype=object)
+    import itertools
+    for oi in np.ndindex(out_shape):
+        env = dict(zip(rhs, oi))
+        acc = Poly()
+        for ci in itertools.product(*[range(sizes[ch]) for ch in contracted]):
+            env.update(zip(contracted, ci))
+            term_ = Poly.const(1)
+            for sub, o in zip(ins, ops):
+                term_ = term_ * o.data[tuple(env[ch] for ch in sub)]
+            acc = acc + term_
+        out[oi] = acc
+    return AT(out_shape, out)
+
+
 class IndexExpr:
     def __getitem__(self, i):
         return i
@@ -820,6 +931,8 @@ def _random_split(key, num=2):
 
 def _random_uniform(key, shape=(), dtype=None, minval=0.0, maxval=1.0):
     """tensor of independent draws: every entry is the atom uniform[key](minval, maxval) varying along the named axes"""
+    if isinstance(key, (list, tuple, dict)):
+        raise AbstractRaise(TypeError(f"unexpected PRNG key type {type(key).__name__} (a single key is required)"))
     try:
         axes = alg.shape_axes(shape)
     except Top:
@@ -1011,7 +1124,7 @@ def make_world_externals(world_ref):
              isnan=_isnan, any=_jnp_any, all=_jnp_all, logical_and=_logical_and, logical_not=_logical_not, logical_or=_logical_or,
              count_nonzero=opaque_fn('count_nonzero'), argsort=opaque_fn('argsort'),
              unravel_index=lambda idx, shape: tuple(Sym('unravel_index', fz(idx), fz(shape), i) for i in range(len(shape))),
-             take=_take, einsum=_einsum, split=opaque_fn('split_array'), cumsum=opaque_fn('cumsum'),
+             take=_take, einsum=_einsum_model, split=_split_model, cumsum=opaque_fn('cumsum'),
              sqrt=opaque_fn('sqrt'), exp=opaque_fn('exp'), where=opaque_fn('where'), prod=opaque_fn('prod'),
              max=opaque_fn('max'), min=opaque_fn('min'), greater=lambda a, b: lift(a) > lift(b),
              greater_equal=lambda a, b: lift(a) >= lift(b), less=lambda a, b: lift(a) < lift(b),
@@ -1039,7 +1152,7 @@ def make_world_externals(world_ref):
              AbstractVar=Subscriptable("AbstractVar"), AbstractClassVar=Subscriptable("AbstractClassVar"),
              is_array=lambda x: isinstance(x, (AT, Sym)), is_inexact_array=lambda x: isinstance(x, (AT, Sym)),
              partition=lambda tree, spec: (term('partition.params', tree), term('partition.static', tree)),
-             combine=lambda *trees: term('combine', *trees),
+             combine=lambda *trees: ModelToken(trees),
              filter_jit=_identity_decorator)
     optax = NS("optax", apply_updates=apply_updates_model,
                GradientTransformation=Subscriptable("GradientTransformation"), OptState=Subscriptable("OptState"))
